@@ -530,34 +530,54 @@ def _vars_of(n, acc=None):
 
 
 def _finite_but_wrong(unit, ctx, n, model_env, rng):
-    """points where the divisor n vanishes (the variables it mentions keep the solver's values, all
-    others are re-sampled inside the domain): if the float code returns finite values that miss a
-    finite oracle value grossly at EVERY such point (3 of 3), the masked division is a defect"""
-    names = [nm for nm in _vars_of(n) if nm in model_env]
+    """the code divided by zero at x* (divisor n = 0) and returned finite numbers.  Off the zero set
+    of n the results are proven equal to the specification, which is continuous on the stated
+    domain; so the value at x* is wrong iff the code's own output JUMPS there: for two step sizes
+    eps and eps/2 away from x* (in the variables n mentions; all other variables re-sampled inside
+    the domain) the distance to the value at x* does not shrink (ratio > 0.75, continuous: 0.5)
+    and is gross (> 1e-3 relative).  Two independent re-samplings must both show it.  No oracle
+    is involved, so finite-difference noise of the float oracles cannot raise this alarm."""
+    names = sorted(nm for nm in _vars_of(n) if nm in model_env)
     if not names:
         return None
-    last = None
-    for t in range(3):
+    found = None
+    for t in range(2):
         base = _random_point(ctx, rng)
         if base is None:
             return None
-        env = dict(base)
+        env0 = dict(base)
         for nm in names:
-            env[nm] = model_env[nm]
-        try:
-            for nm, fn in ctx.derived:
-                env[nm] = fn(env)
-        except Exception:
+            env0[nm] = model_env[nm]
+        u = dict((nm, rng.choice([-1.0, 1.0]) * (0.5 + rng.random())) for nm in names)
+        runs = []
+        for eps in (0.0, 1e-4, 5e-5):
+            env = dict(env0)
+            for nm in names:
+                env[nm] = env0[nm] + eps * u[nm]
+            try:
+                for nm, fn in ctx.derived:
+                    env[nm] = fn(env)
+            except Exception:
+                return None
+            fctx, st = run_float(unit, env)
+            if st != 'ok' or fctx is None:
+                return None
+            runs.append(dict(fctx.float_vals))
+        v0, v1, v2 = runs
+        jumps = []
+        for lab, a in v0.items():
+            if lab not in v1 or lab not in v2:
+                continue
+            b, c = v1[lab], v2[lab]
+            if not (math.isfinite(a) and math.isfinite(b) and math.isfinite(c)):
+                continue
+            d1, d2 = abs(b - a), abs(c - a)
+            if d1 > 1e-3 * max(1.0, abs(a), abs(b)) and d2 > 0.75 * d1:
+                jumps.append((lab, 'index (): got %r expected %r (the limit from nearby points of the domain)' % (a, c)))
+        if not jumps:
             return None
-        fctx, st = run_float(unit, env)
-        if st != 'ok' or fctx is None:
-            return None
-        fails = [f for f in fctx.float_failures if _gross_failure(f) and not _nonfinite_failure(f)
-                 and 'nan' not in str(f[1]) and 'inf' not in str(f[1]) and f[0] != 'exception']
-        if not fails:
-            return None
-        last = (env, fails)
-    return last
+        found = (env0, jumps[:6])
+    return found
 
 
 def _gross_failure(f):
